@@ -16,13 +16,56 @@ ALLOWED_BUF_METHODS = {"put_u8", "put_u16", "put_u16_le", "put_u32", "put_u32_le
 FRESH_BUFFERS = ("Vec::<u8>::with_capacity", "Vec::<u8>::new", "BytesMut::with_capacity", "BytesMut::new")
 
 
+def _split_top(s, sep):
+    depth = 0
+    for i in range(len(s)):
+        ch = s[i]
+        if ch in "([<":
+            depth += 1
+        elif ch in ")]>" and not (ch == ">" and i and s[i - 1] in "-="):
+            depth -= 1
+        elif depth == 0 and s.startswith(sep, i):
+            return s[:i], s[i + len(sep):]
+    return s, None
+
+
+def norm_origin(o):
+    """`expr((((X as Ok).0: (A, B)).1: B))` -> `X as Ok.0.1`: projections written as nested places with type
+    ascriptions (a `match` on the Result) read like the ones produced through Try::branch"""
+    s = o.strip()
+    if s.startswith("expr(") and s.endswith(")"):
+        return norm_origin(s[5:-1])
+    if s.startswith("(") and s.endswith(")"):
+        depth = 0
+        for i, ch in enumerate(s):
+            depth += ch == "("
+            depth -= ch == ")"
+            if depth == 0 and i < len(s) - 1:
+                break
+        else:
+            inner = s[1:-1]
+            left, _ty = _split_top(inner, ": ")
+            m = re.match(r"^(.*)\.(\d+)$", left)
+            if m and (m.group(1).startswith("(") or " as " in m.group(1)):
+                return norm_origin(m.group(1)) + "." + m.group(2)
+            m = re.match(r"^(.*) as (\w+)$", left)
+            if m:
+                return norm_origin(m.group(1)) + " as " + m.group(2)
+            return norm_origin(left) if left != inner else s
+    m = re.match(r"^(\(.*\))\.(\d+)$", s)
+    if m:
+        return norm_origin(m.group(1)) + "." + m.group(2)
+    return s
+
+
 class Fn:
     """Helper view of one MIR body."""
 
     def __init__(self, body):
         self.b = body
         self.org = mf.origins(body)
-        self.res = self.org["__resolve"]
+        self._res = self.org["__resolve"]
+        self.res = lambda x: norm_origin(self._res(x))
         self.dom = mf.dominators(body)
 
     def calls_to(self, pat):
@@ -143,10 +186,41 @@ def check_decode_mut(rep, f, n):
             if stores and not any(sb in f.dom[blk] for sb, _, _ in stores):
                 rep.add("C18|runtime|decode_mut|ok-without-advance", "Ok is returned on a path that does not update the slice", where)
         elif var == "Err":
+            o = f.res(arg)
+            if re.search(r"as Packet>::decode>.* as Err\.0$", o) and f.dominated(blk, err):
+                continue        # `Err(e) => Err(e)`: decode's own error, on decode's Err edge
             rep.add("C18|runtime|decode_mut|synthesised-error", f"decode_mut builds its own error: {rhs}", where)
 
 
-def check_decode_full(rep, f, n):
+def trailing_helper(body):
+    """True when `body` is a function of one slice that returns Ok exactly when the slice is empty and
+    Err(TrailingBytesError) otherwise (the emptiness test of decode_full moved into a helper)"""
+    g = Fn(body)
+    tests = [(bi, t) for bi, t in g.calls_to(r"is_empty$") if "param_1" in g.res(t.args[0])]
+    if len(tests) != 1:
+        return False
+    bi, t = tests[0]
+    nxt = dict(t.targets).get("return")
+    sw = g.b.blocks[nxt].term if nxt is not None else None
+    if not sw or sw.kind != "switch" or sw.discr != t.dest:
+        return False
+    true_e = [tgt for lab, tgt in sw.targets if lab != "0"]
+    false_e = [tgt for lab, tgt in sw.targets if lab == "0"]
+    seen_ok = seen_err = False
+    for blk, lhs, rhs in g.assigns(r"_0"):
+        if isinstance(rhs, tuple):
+            return False
+        var, arg = agg_arg(rhs)
+        if var == "Ok" and g.dominated(blk, true_e):
+            seen_ok = True
+        elif var == "Err" and g.dominated(blk, false_e) and "TrailingBytesError" in g.res(arg):
+            seen_err = True
+        else:
+            return False
+    return seen_ok and seen_err
+
+
+def check_decode_full(rep, f, n, byname=None):
     where = "pdl-runtime/src/lib.rs Packet::decode_full"
     dec = f.calls_to(r"as Packet>::decode(_mut)?$")
     n["rules"] += 1
@@ -246,6 +320,18 @@ def check_decode_full(rep, f, n):
         for lab, tgt in sw.targets:
             is_true = (lab != "0")
             (true_edges if is_true == empty_when_true else false_edges).append(tgt)
+    # the test moved into a helper: `helper(remaining)?` where helper is Ok exactly on the empty slice
+    helper_pat = None
+    for bi_, t_ in mf.calls(f.b):
+        hb = (byname or {}).get(t_.callee)
+        if hb is None or len(t_.args) != 1 or not remainder(f.res(t_.args[0])):
+            continue
+        if trailing_helper(hb):
+            helper_pat = re.escape(t_.callee) + r">"
+            h_ok, h_err = f.success_edges(helper_pat)
+            true_edges += h_ok
+            false_edges += h_err
+            n_len_tests += 1
     n["rules"] += 1
     if not empt and not n_len_tests:
         rep.add("C18|runtime|decode_full|no-emptiness-test", "decode's remainder is never tested for emptiness", where)
@@ -275,6 +361,14 @@ def check_decode_full(rep, f, n):
             t3 = rhs[1]
             if "from_residual" in t3.callee:
                 o = f.res(t3.args[0])
+                if helper_pat and re.search(helper_pat, o):
+                    # the helper's TrailingBytesError: on decode's Ok edge and the helper's Err edge
+                    seen_trailing = True
+                    if not (f.dominated(blk, ok) and f.dominated(blk, false_edges)):
+                        rep.add("C18|runtime|decode_full|trailing-error-not-guarded",
+                                "TrailingBytesError is returned on a path where decode did not succeed with a non-empty "
+                                "remainder", where)
+                    continue
                 if not f.dominated(blk, err) or not re.search(pat, o):
                     rep.add("C18|runtime|decode_full|error-path", "decode's error is not returned unchanged", where)
                 continue
@@ -433,7 +527,7 @@ def run(rep, tier, seed):
     if "Packet::decode_mut" in byname:
         check_decode_mut(rep, Fn(byname["Packet::decode_mut"]), n)
     if "Packet::decode_full" in byname:
-        check_decode_full(rep, Fn(byname["Packet::decode_full"]), n)
+        check_decode_full(rep, Fn(byname["Packet::decode_full"]), n, byname)
     for w in ("encode_to_vec", "encode_to_bytes"):
         if f"Packet::{w}" in byname:
             check_encode_to(rep, Fn(byname[f"Packet::{w}"]), n, w)
